@@ -262,6 +262,33 @@ def build(kind, fname, extra, rg, probe, vals=None):
             return logp_core(x, a1 * a2, bb)
         rep.fcn, rep.params = fn, (a, a, b, p) + s_tuple
         rep.logp, rep.pparams = logp, (a, a, b)
+    elif base == "em_pexp":
+        # the function is a method of an object holding b; a is explicit.  The log density of mcquad is a PLAIN
+        # function with its own explicit parameters (a, b): object tensors of f and explicit tensors of log p
+        # must not be mixed up
+        class EMHoldB(EditableModule):
+            def __init__(self):
+                self.b = b
+
+            def fn(self, *args):
+                probe.tick()
+                xs, aa, pp = args[:nx], args[nx], args[nx + 1]
+                s = args[nx + 2] if extra else 1.0
+                return core(*xs, aa * aa, self.b, pp, s)
+
+            def getparamnames(self, methodname, prefix=""):
+                if methodname == "fn":
+                    return [prefix + "b"]
+                raise KeyError(methodname)
+
+        def logp(x, aa, bb):
+            probe.tick()
+            return logp_core(x, aa * aa, bb)
+        m = EMHoldB()
+        rep.fcn, rep.params, rep.logp, rep.pparams = m.fn, (a, p) + s_tuple, logp, (a, b)
+        rep.holders = [m]
+        rep.slots = [(m, "b", 0)]
+        rep.nobj = 1
     elif base == "em_twice":
         # a tensor held by the object is also passed explicitly
         class EMTwice(EditableModule):
